@@ -1,0 +1,87 @@
+//! Thin wrappers that expose crate-private storage components to a test harness.
+//! No logic of their own beyond argument plumbing.
+
+/// Write-ahead log, driven directly (append / force / reopen / truncate / read back).
+pub mod wal {
+    use crate::io::{disk::FileOperations, wal::WriteAheadLog};
+    use crate::storage::wal::{OwnedRecord, RecordType};
+    use std::io;
+    use std::path::Path;
+
+    pub struct Wal(Option<WriteAheadLog>);
+
+    #[derive(Clone, Debug, PartialEq, Eq)]
+    pub struct Rec {
+        pub lsn: u64,
+        pub tid: u64,
+        pub kind: u8,
+        pub undo: Vec<u8>,
+        pub redo: Vec<u8>,
+    }
+
+    fn kind_of(k: u8) -> RecordType {
+        match k {
+            0x00 => RecordType::Begin,
+            0x01 => RecordType::Commit,
+            0x02 => RecordType::Abort,
+            0x03 => RecordType::End,
+            0x06 => RecordType::Update,
+            0x07 => RecordType::Delete,
+            0x09 => RecordType::Create,
+            0x0A => RecordType::Drop,
+            0x0B => RecordType::Alter,
+            _ => RecordType::Insert,
+        }
+    }
+
+    impl Wal {
+        pub fn create(path: &Path) -> io::Result<Self> {
+            Ok(Wal(Some(WriteAheadLog::create(path)?)))
+        }
+        pub fn open(path: &Path) -> io::Result<Self> {
+            Ok(Wal(Some(WriteAheadLog::open(path)?)))
+        }
+        fn w(&mut self) -> &mut WriteAheadLog {
+            self.0.as_mut().expect("wal open")
+        }
+        pub fn max_record_size(&mut self) -> usize {
+            self.w().max_record_size()
+        }
+        /// Append one record the way `Pager::push_to_log` does (next LSN = last LSN + 1).
+        pub fn push(&mut self, kind: u8, tid: u64, undo: &[u8], redo: &[u8]) -> io::Result<u64> {
+            let lsn = self.w().last_lsn().map(|l| l + 1).unwrap_or(0);
+            let rec = OwnedRecord::new(lsn, tid, None, Some(1), Some(2), kind_of(kind), undo, redo);
+            self.w().push(rec)?;
+            Ok(lsn)
+        }
+        /// Force the log to the file.
+        pub fn force(&mut self) -> io::Result<()> {
+            self.w().perform_flush()
+        }
+        pub fn truncate(&mut self) -> io::Result<()> {
+            self.w().truncate()
+        }
+        pub fn read_all(&mut self, read_ahead: usize) -> io::Result<Vec<Rec>> {
+            let mut out = Vec::new();
+            let mut rd = self.w().reader(read_ahead)?;
+            while let Some(r) = rd.next_ref()? {
+                out.push(Rec {
+                    lsn: r.lsn(),
+                    tid: r.tid(),
+                    kind: r.log_type() as u8,
+                    undo: r.undo_payload().to_vec(),
+                    redo: r.redo_payload().to_vec(),
+                });
+            }
+            Ok(out)
+        }
+        /// Close normally (the log forces itself when dropped).
+        pub fn close(mut self) {
+            drop(self.0.take());
+        }
+        /// Abandon the handle without running its destructor (simulated process death).
+        pub fn leak(mut self) {
+            std::mem::forget(self.0.take());
+        }
+    }
+}
